@@ -9,6 +9,8 @@
 #include <unordered_map>
 #include <unordered_set>
 #include <vector>
+#include <sys/mman.h>
+#include <unistd.h>
 
 // The C allocator is part of the seam too: references to malloc / calloc / realloc / free made by the simulator's own objects (the library
 // headers are compiled into them) are redirected here with -Wl,--wrap.  Inside this file the real functions are used.  The shared-object
@@ -42,7 +44,7 @@ template <class T> struct MallocAlloc {
     template <class U> bool operator!=(const MallocAlloc<U> &) const { return false; }
 };
 
-struct Entry { uint64_t id; size_t size; bool array; bool sut; bool aligned; uint32_t epoch; bool cstyle; };      // cstyle: from malloc / calloc / realloc
+struct Entry { uint64_t id; size_t size; bool array; bool sut; bool aligned; uint32_t epoch; bool cstyle; bool huge = false; void *map_base = nullptr; size_t map_len = 0; };      // cstyle: from malloc / calloc / realloc
 #ifdef SIMRT_ASAN
 const size_t RZ = 0;          // AddressSanitizer has its own redzones (ours would hide overruns from it)
 #else
@@ -121,7 +123,19 @@ void *do_alloc(size_t size, bool array, size_t align, bool nothrow, bool cstyle 
     if (fail) { if (nothrow) return nullptr; throw std::bad_alloc(); }
     void *p;
     const bool over_aligned = align > alignof(std::max_align_t);
-    if (over_aligned) {
+    // a request of a gigabyte or more (sizes that do not fit 32 bits are part of "much larger") is served from reserved, untouched address
+    // space between two inaccessible pages: nothing is filled, only the pages the caller writes become real; the block ends within 16 bytes
+    // of the upper guard page, so an overrun of the terminator faults
+    const bool huge = size >= ((size_t)1 << 30) && !over_aligned;
+    void *map_base = nullptr; size_t map_len = 0;
+    if (huge) {
+        const size_t PG = (size_t)sysconf(_SC_PAGESIZE);
+        map_len = (size + 15) / 16 * 16; map_len = (map_len + PG - 1) / PG * PG + 2 * PG;
+        map_base = mmap(nullptr, map_len, PROT_READ | PROT_WRITE, MAP_PRIVATE | MAP_ANONYMOUS | MAP_NORESERVE, -1, 0);
+        if (map_base == MAP_FAILED) { if (nothrow) return nullptr; throw std::bad_alloc(); }
+        mprotect(map_base, PG, PROT_NONE); mprotect((char *)map_base + map_len - PG, PG, PROT_NONE);
+        p = (char *)map_base + map_len - PG - (size + 15) / 16 * 16;
+    } else if (over_aligned) {
         size_t rounded = (size + align - 1) / align * align;
         p = RAW_ALIGNED(align, rounded ? rounded : align);
     } else {
@@ -129,11 +143,11 @@ void *do_alloc(size_t size, bool array, size_t align, bool nothrow, bool cstyle 
         if (p && RZ) { std::memset(p, RZ_BYTE, RZ); p = (char *)p + RZ; std::memset((char *)p + size, RZ_BYTE, RZ); }
     }
     if (!p) { if (nothrow) return nullptr; throw std::bad_alloc(); }
-    if (g_heap_range_hook) g_heap_range_hook(p, size);
+    if (g_heap_range_hook && !huge) g_heap_range_hook(p, size);
     Lock l;
-    if (sut && s->run_active) std::memset(p, s->fill_fresh, size);
+    if (sut && s->run_active && !huge) std::memset(p, s->fill_fresh, size);
     Entry e; e.id = s->next_id++; e.size = size; e.array = array; e.sut = sut; e.cstyle = cstyle;
-    e.aligned = align > alignof(std::max_align_t); e.epoch = s->epoch;
+    e.aligned = align > alignof(std::max_align_t) || huge; e.epoch = s->epoch; e.huge = huge; e.map_base = map_base; e.map_len = map_len;
     s->ledger[p] = e;
     s->freed.erase(p);
     if (sut && s->run_active) ++s->live_sut_this_run;
@@ -143,7 +157,7 @@ void *do_alloc(size_t size, bool array, size_t align, bool nothrow, bool cstyle 
 void do_free(void *p, bool array, bool cstyle = false) {
     if (!p) return;
     State *s = S();
-    if (g_heap_range_hook) { BlockInfo bi; if (heap_lookup(p, &bi)) g_heap_range_hook(p, bi.size); }
+    if (g_heap_range_hook) { BlockInfo bi; if (heap_lookup(p, &bi) && bi.size < ((size_t)1 << 30)) g_heap_range_hook(p, bi.size); }
     Lock l;
     if (g_in_sut > 0) ++t_op_frees;
     auto it = s->ledger.find(p);
@@ -161,6 +175,7 @@ void do_free(void *p, bool array, bool cstyle = false) {
     s->ledger.erase(it);
     if (RZ && !e.aligned && !rz_intact(p, e.size)) note_violation(s, HV_OVERRUN, "bytes just outside a heap block were overwritten (detected when it was released):", &e);
     if (e.sut && s->run_active && e.epoch == s->epoch && s->live_sut_this_run) --s->live_sut_this_run;
+    if (e.huge) { if (s->run_active) s->freed.insert(p); munmap(e.map_base, e.map_len); return; }
 #ifndef SIMRT_ASAN
     if (s->run_active) {
         s->freed.insert(p);
@@ -225,6 +240,15 @@ bool heap_redzones_intact(char *detail, size_t n) {
     return false;
 }
 
+bool heap_huge_available() {
+    static int ok = -1;
+    if (ok < 0) {
+        size_t len = (size_t)20 << 30;
+        void *m = mmap(nullptr, len, PROT_READ | PROT_WRITE, MAP_PRIVATE | MAP_ANONYMOUS | MAP_NORESERVE, -1, 0);
+        ok = m != MAP_FAILED; if (ok) munmap(m, len);
+    }
+    return ok == 1;
+}
 bool heap_was_freed(const void *p) { State *s = S(); Lock l; return s->freed.count(p) != 0; }
 // released through the seam and still held back from the real allocator (quarantine policy): nobody else can have been given this address since
 bool heap_in_quarantine(const void *p) { State *s = S(); Lock l; return s->run_active && s->quarantined.count(p) != 0; }
